@@ -156,3 +156,70 @@ Example C17_update_example :
   lp_final [[1]; [0; 2]; [1]] [(0, 1, 0%nat); (2, 1, 0%nat); (1, 0, 2%nat)]
   = mkLp [1; 0; 1] [1; 2; 0].
 Proof. vm_compute. reflexivity. Qed.
+
+(* ---- big checkers ---- *)
+(** The oracles of the large-n probe (channel "llpbig": [invert_permutation] and
+    [labels_to_ranks] on 99 999 .. 250 003 elements, around and above the minimum task
+    length of the parallel loops).  [big_check_inverse] and [big_check_ranks]
+    (Algo/BigCheck.v) run in O(n log n) on lists - a merge sort of (key, payload) pairs and
+    linear scans - and decide exactly what [check_perm] / [check_inverse] /
+    [check_monotone] decide (quadratic: unusable at that size). *)
+From WG Require Import Algo.BigCheck Algo.BigCheckStatements Algo.BigCheckFacts.
+
+(** the merge sort all three checkers rest on: a permutation of the input, sorted by key *)
+Theorem C17_big_ksort_correct : S_ksort_correct.
+Proof. exact ksort_correct. Qed.
+Print Assumptions C17_big_ksort_correct.
+
+(** [big_check_inverse p q] = [check_perm p && check_inverse p q] *)
+Theorem C17_big_inverse_spec : S_big_inverse_spec.
+Proof. exact big_inverse_spec. Qed.
+Print Assumptions C17_big_inverse_spec.
+
+(** ... iff [p] is a permutation of 0..n-1 and [q], of the same length, a left inverse *)
+Theorem C17_big_inverse_prop : S_big_inverse_prop.
+Proof. exact big_inverse_prop. Qed.
+Print Assumptions C17_big_inverse_prop.
+
+(** ... iff [p] is a permutation and [q] is what the model of [invert_permutation] returns *)
+Theorem C17_big_inverse_model : S_big_inverse_model.
+Proof. exact big_inverse_model. Qed.
+Print Assumptions C17_big_inverse_model.
+
+(** [big_check_ranks labels ranks] = same length && [check_perm ranks] &&
+    [check_monotone labels ranks] *)
+Theorem C17_big_ranks_spec : S_big_ranks_spec.
+Proof. exact big_ranks_spec. Qed.
+Print Assumptions C17_big_ranks_spec.
+
+(** ... iff [ranks] is a permutation of 0..n-1, increasing in the label, ties broken by node
+    identifier (the conclusions of [C17_ranks_perm] and [C17_ranks_monotone]) *)
+Theorem C17_big_ranks_prop : S_big_ranks_prop.
+Proof. exact big_ranks_prop. Qed.
+Print Assumptions C17_big_ranks_prop.
+
+(** the checker accepts what the model of [labels_to_ranks] returns, for arbitrary labels *)
+Theorem C17_big_ranks_model : S_big_ranks_model.
+Proof. exact big_ranks_model. Qed.
+Print Assumptions C17_big_ranks_model.
+
+(** non-vacuity: the inverse of [C17_ranks_example] is accepted; a wrong inverse, a
+    non-permutation and a short inverse are refused *)
+Example C17_big_inverse_example :
+  big_check_inverse [2; 0; 1; 3] [1; 2; 0; 3] = true /\
+  big_check_inverse [2; 0; 1; 3] [1; 2; 3; 0] = false /\
+  big_check_inverse [2; 0; 1; 2] [1; 2; 0; 3] = false /\
+  big_check_inverse [2; 0; 1; 3] [1; 2; 0] = false.
+Proof. vm_compute. repeat split; reflexivity. Qed.
+
+(** the ranks of [C17_ranks_example] are accepted; ranks that are not monotone, ranks that
+    break a tie between equal labels against the node order (an unstable sort), a
+    non-permutation and a short array are refused *)
+Example C17_big_ranks_example :
+  big_check_ranks [3; 1; 3; 0; 1] [3; 1; 4; 0; 2] = true /\
+  big_check_ranks [3; 1; 3; 0; 1] [3; 1; 2; 0; 4] = false /\
+  big_check_ranks [3; 1; 3; 0; 1] [3; 2; 4; 0; 1] = false /\
+  big_check_ranks [3; 1; 3; 0; 1] [3; 1; 3; 0; 2] = false /\
+  big_check_ranks [3; 1; 3; 0; 1] [3; 1; 4; 0] = false.
+Proof. vm_compute. repeat split; reflexivity. Qed.
+(* ---- big checkers ---- *)
